@@ -236,3 +236,128 @@ Qed.
 (* u8..u64: MROO is modelled by its integer meaning *)
 Lemma sqrt_narrow_correct a : exists r, sqrt_narrow df a = Ret r /\ is_sqrt a r.
 Proof. exists (N.sqrt a). split; [reflexivity | apply is_sqrt_sqrt]. Qed.
+
+(* ------------------------------------------------------------------ fuel: the error halves at every step *)
+Lemma nstep_halves n x : N.sqrt n < x -> nstep n x - N.sqrt n <= (x - N.sqrt n) / 2.
+Proof.
+  intros Hx. unfold nstep. destruct (sqrt_bounds n) as [_ Hs]. remember (N.sqrt n) as s.
+  assert (Q : n / x < s + 1).
+  { apply N.div_lt_upper_bound; [lia|]. assert ((s + 1) * (s + 1) <= x * (s + 1)) by (apply N.mul_le_mono_r; lia). lia. }
+  assert (M : (x + n / x) / 2 <= (x + s) / 2) by (apply N.div_le_mono; [discriminate | lia]).
+  replace (x + s) with (x - s + s * 2) in M by lia. rewrite N.div_add in M by discriminate. lia.
+Qed.
+
+Lemma half_lt_pow2 e f : e < 2 ^ N.of_nat (S f) -> e / 2 < 2 ^ N.of_nat f.
+Proof.
+  intros H. apply N.div_lt_upper_bound; [discriminate|].
+  rewrite Nat2N.inj_succ, N.pow_succ_r' in H. exact H.
+Qed.
+
+Lemma sqrt_loop_fuel : forall f a x0 x1,
+  wf a -> wf x0 -> wf x1 -> 0 < val x0 ->
+  N.sqrt (val a) <= val x0 -> val x0 <= val a / 2 -> val x1 = nstep (val a) (val x0) ->
+  val x0 - N.sqrt (val a) < 2 ^ N.of_nat f ->
+  sqrt_loop df (S f) a x0 x1 <> Oof.
+Proof.
+  induction f as [| f IH]; intros a x0 x1 Ha H0 H1 Hpos Hs Hh E1 He;
+    cbn [sqrt_loop]; rewrite u128_lt_spec by assumption;
+    (destruct (val x1 <? val x0) eqn:E; [|discriminate]);
+    apply N.ltb_lt in E;
+    assert (S1 : N.sqrt (val a) <= val x1) by (rewrite E1; apply nstep_ge; exact Hpos).
+  - change (2 ^ N.of_nat 0) with 1 in He. lia.
+  - assert (P1 : 0 < val x1).
+    { destruct (N.eq_dec (val a) 0) as [Z | NZ]; [rewrite Z in Hh; cbn in Hh; lia|].
+      assert (1 <= N.sqrt (val a)) by (apply N.sqrt_le_square; lia). lia. }
+    pose proof (u128_nstep a x1 Ha H1 P1 S1 ltac:(lia)) as St.
+    destruct (u128_div df a x1) as [d | | |] eqn:Ed; cbn [bind] in St |- *; try discriminate.
+    destruct (u128_add df x1 d) as [s | | |] eqn:Es; cbn [bind] in St |- *; try discriminate.
+    rewrite St. cbn [bind].
+    apply IH; try assumption.
+    + apply wf_split. unfold nstep.
+      pose proof (nsum_bound_strict (val a) (val x1) S1 P1 ltac:(lia) (val_lt a Ha)).
+      assert ((val x1 + val a / val x1) / 2 <= val x1 + val a / val x1) by (apply div_le_self; reflexivity). lia.
+    + lia.
+    + rewrite val_split. reflexivity.
+    + pose proof (nstep_halves (val a) (val x0) ltac:(lia)) as Hh2. rewrite <- E1 in Hh2.
+      pose proof (half_lt_pow2 _ _ He). lia.
+Qed.
+
+Lemma u128_sqrt_total a : wf a -> u128_sqrt df a <> Oof.
+Proof.
+  intros Ha. pose proof (val_lt a Ha) as La. unfold u128_sqrt, u128_sqrt_fuel. cbn [pue unsafemath df negb when].
+  rewrite u128_eq_zero by exact Ha.
+  destruct (val a =? 0) eqn:E0; cbn [negb assert bind]; [discriminate|].
+  apply N.eqb_neq in E0.
+  rewrite u128_rsh_full by (assumption || reflexivity). cbn [bind]. change (2 ^ 1) with 2.
+  assert (Lh : val a / 2 <= val a) by (apply div_le_self; reflexivity).
+  assert (Wh : wf (split (val a / 2))) by (apply wf_split; lia).
+  rewrite u128_eq_zero by exact Wh. rewrite val_split.
+  destruct (val a / 2 =? 0) eqn:Eh; cbn [negb]; [discriminate|].
+  apply N.eqb_neq in Eh.
+  assert (N2 : 2 <= val a).
+  { destruct (N.le_gt_cases 2 (val a)); [assumption|]. rewrite N.div_small in Eh by lia. congruence. }
+  pose proof (sqrt_le_half (val a) N2) as Sh.
+  pose proof (u128_nstep a (split (val a / 2)) Ha Wh) as St. rewrite val_split in St.
+  specialize (St ltac:(lia) Sh (N.le_refl _)).
+  destruct (u128_div df a (split (val a / 2))) as [d | | |] eqn:Ed; cbn [bind] in St |- *; try discriminate.
+  destruct (u128_add df (split (val a / 2)) d) as [s | | |] eqn:Es; cbn [bind] in St |- *; try discriminate.
+  rewrite St. cbn [bind].
+  assert (Wn : wf (split (nstep (val a) (val a / 2)))).
+  { apply wf_split. unfold nstep.
+    pose proof (nsum_bound_strict (val a) (val a / 2) Sh ltac:(lia) (N.le_refl _) La).
+    assert ((val a / 2 + val a / (val a / 2)) / 2 <= val a / 2 + val a / (val a / 2)) by (apply div_le_self; reflexivity). lia. }
+  change 200%nat with (S 199).
+  apply sqrt_loop_fuel; rewrite ?val_split; try assumption; try lia; try reflexivity.
+Qed.
+
+Lemma u128_sqrt_correct a : wf a ->
+  if val a =? 0 then u128_sqrt df a = Rev FAILED_ASSERT_SIGNAL
+  else exists r, u128_sqrt df a = Ret r /\ wf r /\ is_sqrt (val a) (val r).
+Proof.
+  intros Ha. pose proof (u128_sqrt_fuel_correct 200 a Ha) as C. pose proof (u128_sqrt_total a Ha) as T.
+  unfold u128_sqrt in *. destruct (val a =? 0); [exact C|].
+  destruct (u128_sqrt_fuel 200 df a) as [r | | |]; cbn [done_or] in C; try contradiction; try congruence.
+  exists r. split; [reflexivity | exact C].
+Qed.
+
+(* u256 *)
+Lemma u256_sqrt_loop_fuel : forall f n x0 x1, n < 2 ^ 256 -> 0 < x0 ->
+  N.sqrt n <= x0 -> x0 <= n / 2 -> x1 = nstep n x0 -> x0 - N.sqrt n < 2 ^ N.of_nat f ->
+  u256_sqrt_loop df (S f) n x0 x1 <> Oof.
+Proof.
+  induction f as [| f IH]; intros n x0 x1 Ln Hpos Hs Hh E1 He;
+    cbn [u256_sqrt_loop]; (destruct (x1 <? x0) eqn:E; [|discriminate]);
+    apply N.ltb_lt in E;
+    assert (S1 : N.sqrt n <= x1) by (rewrite E1; apply nstep_ge; exact Hpos).
+  - change (2 ^ N.of_nat 0) with 1 in He. lia.
+  - assert (P1 : 0 < x1).
+    { destruct (N.eq_dec n 0) as [Z | NZ]; [rewrite Z in Hh; cbn in Hh; lia|].
+      assert (1 <= N.sqrt n) by (apply N.sqrt_le_square; lia). lia. }
+    pose proof (u256_nstep n x1 Ln P1 S1 ltac:(lia)) as St.
+    destruct (u256_div df n x1) as [d | | |] eqn:Ed; cbn [bind] in St |- *; try discriminate.
+    destruct (u256_add df x1 d) as [s | | |] eqn:Es; cbn [bind] in St |- *; try discriminate.
+    rewrite St. cbn [bind].
+    apply IH; try assumption; try lia; try reflexivity.
+    pose proof (nstep_halves n x0 ltac:(lia)) as Hh2. rewrite <- E1 in Hh2.
+    pose proof (half_lt_pow2 _ _ He). lia.
+Qed.
+
+Lemma u256_sqrt_correct n : n < 2 ^ 256 -> exists r, u256_sqrt df n = Ret r /\ is_sqrt n r.
+Proof.
+  intros Ln. pose proof (u256_sqrt_fuel_correct 400 n Ln) as C.
+  assert (T : u256_sqrt df n <> Oof).
+  { unfold u256_sqrt, u256_sqrt_fuel.
+    assert (R1 : u256_rsh df n 1 = Ret (n / 2)).
+    { unfold u256_rsh, wq, wq_op. rewrite wide_shr_any by (exact Ln || exact P256_le32). reflexivity. }
+    rewrite R1. cbn [bind]. destruct (n / 2 =? 0) eqn:Eh; [discriminate|]. apply N.eqb_neq in Eh.
+    assert (N2 : 2 <= n).
+    { destruct (N.le_gt_cases 2 n); [assumption|]. rewrite N.div_small in Eh by lia. congruence. }
+    pose proof (sqrt_le_half n N2) as Sh.
+    pose proof (u256_nstep n (n / 2) Ln ltac:(lia) Sh (N.le_refl _)) as St.
+    destruct (u256_div df n (n / 2)) as [d | | |] eqn:Ed; cbn [bind] in St |- *; try discriminate.
+    destruct (u256_add df (n / 2) d) as [s | | |] eqn:Es; cbn [bind] in St |- *; try discriminate.
+    rewrite St. cbn [bind]. change 400%nat with (S 399).
+    apply u256_sqrt_loop_fuel; try assumption; try lia; try reflexivity. }
+  unfold u256_sqrt in *. destruct (u256_sqrt_fuel 400 df n) as [r | | |]; cbn [done_or] in C; try contradiction; try congruence.
+  exists r. split; [reflexivity | exact C].
+Qed.
